@@ -240,6 +240,16 @@ let run (op : string) (args : string list) : string =
              | WErr st' -> (List.rev (("err:" ^ string_of_int (List.length st'.entries)) :: acc), st')) in
       let (w, st) = go stream_init chunks [] in
       "W=" ^ String.concat "," w ^ "|P=" ^ arg_of_str (print_stream st.entries)
+  | "stream.cont", chunks ->
+      let rec go st cs acc =
+        match cs with
+        | [] -> (List.rev acc, st)
+        | c :: r ->
+            (match stream_write st (str_of_arg c) with
+             | WOk st' -> go st' r (("ok:" ^ string_of_int (List.length st'.entries)) :: acc)
+             | WErr st' -> go st' r (("err:" ^ string_of_int (List.length st'.entries)) :: acc)) in
+      let (w, st) = go stream_init chunks [] in
+      "W=" ^ String.concat "," w ^ "|P=" ^ arg_of_str (print_stream st.entries)
   | "di.parse", [b] -> dump_di (di_from_bytes (str_of_arg b))
   | "di.roundtrip", [b] -> arg_of_str (di_as_bytes (di_from_bytes (str_of_arg b)))
   | "di.classify", [n] -> (match classify (str_of_arg n) with Distfile -> "D" | Patchfile -> "P")
